@@ -127,6 +127,18 @@ theorem join_spec (x y : Table) (lc rc : List KeySpec) (mode : Mode)
   · rw [keyedPairs_snd, ← keysOf_length hlk, ← keysOf_length hrk]
     exact joinPairs_perm lk rk
 
+/-- omitted `lcols` / `rcols` mean the shared columns (in the left table's order) on both sides -/
+theorem join_default_cols (x y : Table) (mode : Mode) :
+    join x y none none mode =
+      join x y (some ((linter x.cols y.cols).map .col)) (some ((linter x.cols y.cols).map .col)) mode ∧
+    ∀ lc, join x y (some lc) none mode = join x y (some lc) (some lc) mode := by
+  constructor <;> intros <;> simp [join]
+
+theorem xor_default_cols (x y : Table) (mode : Nat) :
+    xor x y none none mode =
+      xor x y (some ((linter x.cols y.cols).map .col)) (some ((linter x.cols y.cols).map .col)) mode := by
+  simp [xor]
+
 /-- **cross join** (no key column): the full product of the two tables, row-major -/
 theorem cross_spec (x y : Table) (mode : Mode) :
     join x y (some []) (some []) mode =
